@@ -192,6 +192,38 @@ def _on_alarm(signum, frame):
     raise PlanTimeout()
 
 
+class OpTimeout(Exception):
+    """A single library operation did not return (turns a hang into a verdict)."""
+
+
+class op_time_limit:
+    """with op_time_limit(3.0): <one library call>  -- nests inside the per-plan timer."""
+
+    def __init__(self, sec):
+        self.sec = sec
+
+    def __enter__(self):
+        import signal
+        self.old = signal.getsignal(signal.SIGALRM)
+        self.remaining = signal.getitimer(signal.ITIMER_REAL)[0]
+        self.t0 = time.time()
+        sec = self.sec
+
+        def h(signum, frame):
+            raise OpTimeout("operation did not return within %g s" % sec)
+        signal.signal(signal.SIGALRM, h)
+        signal.setitimer(signal.ITIMER_REAL, sec)
+        return self
+
+    def __exit__(self, *a):
+        import signal
+        signal.setitimer(signal.ITIMER_REAL, 0)
+        signal.signal(signal.SIGALRM, self.old if self.old is not None else signal.SIG_DFL)
+        if self.remaining > 0:
+            signal.setitimer(signal.ITIMER_REAL, max(0.01, self.remaining - (time.time() - self.t0)))
+        return False
+
+
 def execute_guarded(world, plan, limit=None):
     """Run one plan; classify anything unexpected as a harness error.  A plan
     that does not finish within `limit` wall seconds is a harness error too
